@@ -1092,6 +1092,9 @@ func ctxOf(v value) *ctxV {
 
 func inWithCancel(fr *frame, args []value) (value, bool) {
 	m := fr.m
+	if args[0].(iface).t == nil {
+		panic(targetPanic{iface{t: types.Typ[types.String], v: "cannot create context from nil parent"}})
+	}
 	parent := ctxOf(args[0])
 	ctx := m.newCtx(parent)
 	c := ctx.(iface).v.(*ctxV)
